@@ -1,6 +1,6 @@
 (* C15 — lemmas: fixed-width native integers (i64, i32, i16, u8) and int <-> native conversions *)
 From Coq Require Import ZArith Bool Lia.
-From C15 Require Import Model Proofs Proofs2.
+From C15 Require Import Model Statement Proofs Proofs2 Proofs3.
 Open Scope Z_scope.
 Ltac Zify.zify_post_hook ::= Z.to_euclidean_division_equations.
 
@@ -216,4 +216,40 @@ Proof.
   rewrite E. split.
   - intros R. rewrite Z.shiftl_mul_pow2 by lia. now rewrite fw_wrap_id.
   - now rewrite Z.shiftr_div_pow2 by lia.
+Qed.
+
+(* u8 invert: x ^ 0xff = (~x) mod 256 = 255 - x *)
+Theorem u8_invert_correct x : in_range U8 x = true -> fw_invert U8 x = (py_invert x) mod 256.
+Proof.
+  intros R. apply in_range_iff in R. unfold fw_invert, py_invert. cbn [fw_signed fw_modulus].
+  unfold fw_lower, fw_upper in R. cbn [fw_signed] in R.
+  replace (Z.lxor x (B8 - 1)) with (Z.lxor (x mod 2 ^ 8) ((-1) mod 2 ^ 8)).
+  2:{ f_equal. apply Z.mod_small. change (2 ^ 8) with 256. consts; lia. }
+  rewrite (modpow_bitop 8 Z.lxor xorb ltac:(lia) Z.lxor_spec eq_refl).
+  rewrite Z.lxor_m1_r. unfold Z.lnot. change (2 ^ 8) with 256. f_equal; try lia.
+Qed.
+
+(* the whole fixed-width statement (Statement.fixed_width_correct) *)
+Theorem fixed_width_correct_holds : fixed_width_correct.
+Proof.
+  intros t op x y Rx Ry Hs.
+  destruct op; cbn [py_fwop].
+  - intros Hv. apply (fw_arith_correct t FAdd x y); [auto | reflexivity | exact Hv].
+  - intros Hv. apply (fw_arith_correct t FSub x y); [auto | reflexivity | exact Hv].
+  - intros Hv. apply (fw_arith_correct t FMul x y); [auto | reflexivity | exact Hv].
+  - unfold py_floordiv. destruct (fw_signed t) eqn:S.
+    + rewrite (fw_divide_correct t x y S Rx Ry). destruct (y =? 0); [reflexivity|]. intros Hv. now rewrite Hv.
+    + assert (t = U8) by (destruct t; try discriminate; reflexivity). subst t.
+      destruct (u8_divmod_correct x y Rx Ry) as [D _]. rewrite D. destruct (y =? 0); [reflexivity|]. reflexivity.
+  - unfold py_mod. destruct (fw_signed t) eqn:S.
+    + rewrite (fw_remainder_correct t x y S Rx Ry). destruct (y =? 0); reflexivity.
+    + assert (t = U8) by (destruct t; try discriminate; reflexivity). subst t.
+      destruct (u8_divmod_correct x y Rx Ry) as [_ M]. rewrite M. destruct (y =? 0); reflexivity.
+  - intros Hv. apply (fw_arith_correct t FAnd x y); [auto 10 | reflexivity | exact Hv].
+  - intros Hv. apply (fw_arith_correct t FOr x y); [auto 10 | reflexivity | exact Hv].
+  - intros Hv. apply (fw_arith_correct t FXor x y); [auto 10 | reflexivity | exact Hv].
+  - specialize (Hs (or_introl eq_refl)). unfold py_lshift. destruct (Z.ltb_spec y 0); [lia|].
+    intros Hv. now apply (fw_shift_correct t x y Hs).
+  - specialize (Hs (or_intror eq_refl)). unfold py_rshift. destruct (Z.ltb_spec y 0); [lia|].
+    intros _. now apply (fw_shift_correct t x y Hs).
 Qed.
